@@ -175,7 +175,8 @@ class PropertyCheck:
                 from . import layout
                 from contracts import layouts as _lt
                 tabs = {k: _lt.TABLES[k] for k in self.spec["layouts"]}
-                self.extra = layout.check_layouts(tabs, REPO)
+                shp = {k: _lt.SHAPES[k] for k in getattr(_lt, "SHAPES_BY_PROPERTY", {}).get(self.pid, [])}
+                self.extra = layout.check_layouts(tabs, REPO, shapes=shp)
             except Exception as e:
                 self.checker_errors.append(f"layout check: {e!r}")
             for x in self.extra:
